@@ -324,6 +324,40 @@ pub fn ghost_step(g: &PuGhost, op: &PuOp, pre: &PuObs, post: &PuObs) -> PuGhost 
 
 pub type PuOracle = fn(&PuCtx, &mut Rec);
 
+/// Metamorphic clause "spelling out a default equals omitting it": the operation is re-run on a copy of the pre-state with
+/// the omitted optional field set to its documented default; outcome class and the whole chain storage must be identical.
+/// `which`: 0 = price protection (max_slippage omitted = 1 %), 1 = receiver (omitted = the sender).
+fn default_twin(op: &PuOp, which: u8) -> Option<PuOp> {
+    let mut o = op.clone();
+    match (&mut o, which) {
+        (PuOp::Swap { slip, .. }, 0) | (PuOp::Route { slip, .. }, 0) if slip.is_none() => *slip = Some(100),
+        (PuOp::Provide { swap_slip, funds, .. }, 0) if swap_slip.is_none() && funds.len() == 1 => *swap_slip = Some(100),
+        (PuOp::Swap { recv, u, .. }, 1) | (PuOp::Route { recv, u, .. }, 1) if recv.is_none() => *recv = Some(*u),
+        (PuOp::Provide { recv, u, lock, .. }, 1) if recv.is_none() && lock.is_none() => *recv = Some(*u),
+        _ => return None,
+    }
+    Some(o)
+}
+fn defaults_clause(c: &PuCtx, rec: &mut Rec, which: u8, kind: &str) {
+    let Some(twin) = default_twin(c.op, which) else { return };
+    let cfgw = cfg();
+    let (ok, same) = crate::engine::with_scratch(&cfgw, c.s0, |w2| {
+        let o = apply(w2, &twin);
+        (o.is_ok(), w2.app.storage().data == c.w.app.storage().data)
+    });
+    rec.count("explicit_default_twins");
+    rec.validated += 1;
+    if ok != c.out.is_ok() || !same {
+        rec.viol(kind, format!("{:?} accepted={} but with the default spelled out ({:?}) accepted={ok}, same resulting state={same}", c.op, c.out.is_ok(), twin));
+    }
+}
+pub fn oracle_default_slippage(c: &PuCtx, rec: &mut Rec) {
+    defaults_clause(c, rec, 0, "C13_omitted_tolerance_is_not_the_default");
+}
+pub fn oracle_default_receiver(c: &PuCtx, rec: &mut Rec) {
+    defaults_clause(c, rec, 1, "C04_omitted_receiver_is_not_the_sender");
+}
+
 #[derive(Clone, Copy, PartialEq, Eq, Debug)]
 pub enum Alpha {
     Full,
